@@ -3486,6 +3486,10 @@ fn validate_extension_declarations(
     // would otherwise be counted twice towards its sector's verified space and could stand in
     // for a different claim of the sector that is neither checked nor dropped.
     let mut declared_claims = BTreeSet::<ext::verifreg::ClaimID>::new();
+    // A sector may be extended by at most one declaration per message. Claims are checked against
+    // the new expiration of the declaration that lists them, so a second declaration for the same
+    // sector could otherwise extend it past the expiration its claims were validated for.
+    let mut declared_sectors = BitField::new();
 
     for decl in &extensions {
         let policy = rt.policy();
@@ -3497,6 +3501,19 @@ fn validate_extension_declarations(
                 policy.wpost_period_deadlines
             ));
         }
+
+        let mut decl_sectors = decl.sectors.clone();
+        for sc in &decl.sectors_with_claims {
+            decl_sectors.set(sc.sector_number);
+        }
+        if declared_sectors.contains_any(&decl_sectors) {
+            return Err(actor_error!(
+                illegal_argument,
+                "sectors {:?} declared in more than one extension",
+                &declared_sectors & &decl_sectors
+            ));
+        }
+        declared_sectors |= &decl_sectors;
 
         for sc in &decl.sectors_with_claims {
             let mut drop_claims = sc.drop_claims.clone();
